@@ -9,12 +9,12 @@ pkg=$(sed -n 's/^package \([a-z_]*\).*/\1/p' $D | head -1)
 cd $W && git checkout -q -- . && git clean -fdq
 git apply $O/patch.diff || { echo "PATCH DOES NOT APPLY"; exit 9; }
 go build ./... >/dev/null 2>&1 || { echo "BUILD FAILS"; git checkout -q -- .; exit 8; }
-go test -vet=off -count=1 ./... >/tmp/wt/suite.log 2>&1; s=$?
+go test -vet=off -count=1 ./... >${LOGD:-/tmp/wt}/suite.log 2>&1; s=$?
 cp $D $W/$DIR/zz_seed_demo_test.go
-(cd $W/$DIR && go test $RACEFLAG -vet=off -count=1 -run "${RUNPAT:-Demo|demo|Seed|C[0-9][0-9]|Shared|Concurrent}" . >/tmp/wt/demo_p.log 2>&1); p=$?
+(cd $W/$DIR && go test $RACEFLAG -vet=off -count=1 -run "${RUNPAT:-Demo|demo|Seed|C[0-9][0-9]|Shared|Concurrent}" . >${LOGD:-/tmp/wt}/demo_p.log 2>&1); p=$?
 rm -f $W/$DIR/zz_seed_demo_test.go; git checkout -q -- . && git clean -fdq
 cp $D $W/$DIR/zz_seed_demo_test.go
-(cd $W/$DIR && go test $RACEFLAG -vet=off -count=1 -run "${RUNPAT:-Demo|demo|Seed|C[0-9][0-9]|Shared|Concurrent}" . >/tmp/wt/demo_c.log 2>&1); c=$?
+(cd $W/$DIR && go test $RACEFLAG -vet=off -count=1 -run "${RUNPAT:-Demo|demo|Seed|C[0-9][0-9]|Shared|Concurrent}" . >${LOGD:-/tmp/wt}/demo_c.log 2>&1); c=$?
 rm -f $W/$DIR/zz_seed_demo_test.go; git checkout -q -- . && git clean -fdq
 echo "suite_with_patch=$s demo_with_patch=$p demo_pristine=$c"
-[ $s -eq 0 ] && [ $p -ne 0 ] && [ $c -eq 0 ] && echo CONFIRMED || { echo NOT-CONFIRMED; grep -E "^(---|FAIL|ok|panic)" /tmp/wt/demo_c.log | head; }
+[ $s -eq 0 ] && [ $p -ne 0 ] && [ $c -eq 0 ] && echo CONFIRMED || { echo NOT-CONFIRMED; grep -E "^(---|FAIL|ok|panic)" ${LOGD:-/tmp/wt}/demo_c.log | head; }
